@@ -183,6 +183,15 @@ def main(argv=None):
                     frames = [(0x7E8, f) for f in ic.segment(fsz, t, pad)]
                     cases.append(([0x7E8], frames, {0x7E8: [t]}, [0x7E0], rng.choice([0, 8]), 0xAA,
                                   f"single fsz={fsz} n={n} pad={mode}"))
+        # 1a. telegrams of more than 4095 bytes (first frame with the 32 bit length), alone and between short ones
+        for fsz, n in ((8, 4096), (8, 4097), (8, 5000), (64, 4096), (64, 4158), (12, 4100)) if quick else \
+                [(f_, n_) for f_ in ic.FD_SIZES for n_ in (4096, 4097, 4102, 4103, 5000, 8191, 8192, 70000)]:
+            t = rand_telegram(rng, n)
+            t0, t2 = rand_telegram(rng, 5), rand_telegram(rng, 30)
+            segs = ic.segment(fsz, t)
+            pad = ic.make_pad(rng, len(segs[-1]), fsz, rng.choice([0, 1, 2]))
+            frames = [(0x7E8, f) for t_, p_ in ((t0, b""), (t, pad), (t2, b"")) for f in ic.segment(fsz, t_, p_)]
+            cases.append(([0x7E8], frames, {0x7E8: [t0, t, t2]}, [0x7E0], rng.choice([0, 8]), 0xAA, f"long fsz={fsz} n={n}"))
         # 1b. a transfer of 254..258 consecutive frames (the block size of the active decoder's flow control is 255)
         # directly followed by another segmented transfer on the same id
         for fsz in (8, 12):
@@ -237,7 +246,7 @@ def main(argv=None):
             # the Python reference segmenter equals the Coq specification `segment`
             segcases, segwant = [], []
             for fsz in ic.FD_SIZES:
-                for n in boundary_lengths(fsz)[:30]:
+                for n in boundary_lengths(fsz)[:30] + [4096, 4097 + fsz]:
                     t = rand_telegram(rng, n)
                     pad = bytes([0xCC]) * rng.randint(0, 3)
                     segcases.append([ic.M_SEG, [fsz, list(t), list(pad)]])
